@@ -94,7 +94,7 @@ func genC19(verifSeed int64, tier string, idx int) *core.Scenario {
 		sp.Steps = append(sp.Steps, st)
 	}
 	sc := &core.Scenario{V: 1, Property: "C19", Engine: "disk", VerifSeed: verifSeed, Run: idx, RunSeed: seed}
-	sc.Sched = verifsim.Config{Seed: seed, Policy: "serial", MaxSteps: 2000000, MapOrder: "random"}
+	sc.Sched = verifsim.Config{Seed: seed, Policy: "serial", MaxSteps: 400000000, MapOrder: "random"} // 64 KiB entries read byte by byte are legitimate work
 	sc.Spec = encodeSpec(sp)
 	return sc
 }
@@ -150,9 +150,9 @@ func (e *env) violate(sig, detail string) { e.res.Violate(sig, detail) }
 // checkAll retrieves every identifier of the run on a quiet, fault-free disk and
 // compares with the model.
 func (e *env) checkAll(after string) {
-	saveF, saveQ := e.disk.Faults, e.disk.Quiet
-	e.disk.Faults, e.disk.Quiet = nil, true
-	defer func() { e.disk.Faults, e.disk.Quiet = saveF, saveQ }()
+	saveF, saveQ, saveC := e.disk.Faults, e.disk.Quiet, e.disk.ReadChunk
+	e.disk.Faults, e.disk.Quiet, e.disk.ReadChunk = nil, true, 0 // the model comparison reads in one piece
+	defer func() { e.disk.Faults, e.disk.Quiet, e.disk.ReadChunk = saveF, saveQ, saveC }()
 	seen := map[string]bool{}
 	for _, id := range e.sp.IDs {
 		if seen[id] || id == "" {
